@@ -3,6 +3,7 @@
 package main
 
 import (
+	"encoding/json"
 	"flag"
 	"fmt"
 	"os"
@@ -26,6 +27,19 @@ func main() {
 	if s := os.Getenv("VERIF_SEED"); s != "" && !isFlagSet("seed") {
 		if v, err := strconv.ParseInt(s, 10, 64); err == nil {
 			*seed = v
+		}
+	}
+	if *replay != "" {
+		// Case lists are a pure function of (seed, tier): a replay re-runs the
+		// recorded tier and seed (drivers with a finer replay use the file too).
+		if b, err := os.ReadFile(*replay); err == nil {
+			var rec struct {
+				Tier string `json:"tier"`
+				Seed int64  `json:"seed"`
+			}
+			if json.Unmarshal(b, &rec) == nil && rec.Tier != "" {
+				*tier, *seed = rec.Tier, rec.Seed
+			}
 		}
 	}
 	fn, ok := props.Drivers[*property]
